@@ -119,7 +119,8 @@ PALETTES = [
 # which derived fields accompany K / A in a test (keeps the sweep affordable)
 EXTRA = [("U", "F"), ("T", "E"), ("PX", "N"), ("Z", "S"), ("N", "F"), ("T", "Z"), ("U", "PX"), ("E", "S")]
 # storage dimensions besides cache / async: a pairwise covering array over (gz, lc, ext, plain)
-STORAGE = [(0, 0, 0, 0), (1, 1, 0, 0), (0, 0, 1, 1), (1, 0, 1, 0), (0, 1, 0, 1), (1, 0, 0, 1), (0, 1, 1, 0), (1, 1, 1, 1)]
+# (compress, lower-case names, extension: 0 ".json" / 1 ".dat" / 2 ".j.gz" - an extension that itself ends in .gz -, plain struct)
+STORAGE = [(0, 0, 0, 0), (1, 1, 0, 0), (0, 0, 1, 1), (1, 0, 1, 0), (0, 1, 0, 1), (1, 0, 0, 1), (0, 1, 1, 0), (1, 1, 1, 1), (1, 0, 2, 0), (0, 1, 2, 1)]
 
 
 def case_code(uni, field, cls, variant):
@@ -130,7 +131,7 @@ def case_code(uni, field, cls, variant):
 def make_cfg(cache, asyn, storage, thr=100000, tmo_ms=3600000):
     gz, lc, ext, plain = STORAGE[storage % len(STORAGE)]
     return dict(cache=bool(cache), **{"async": bool(asyn)}, thr=thr, tmo_ms=tmo_ms, gz=bool(gz), lc=bool(lc),
-                ext=".dat" if ext else ".json", plain=bool(plain))
+                ext=[".json", ".dat", ".j.gz"][ext], plain=bool(plain))
 
 
 def conv_obj(uni, o, pal, extra, n):
@@ -347,14 +348,14 @@ class RandGen:
 
 
 # custom schemas (harness: custom()): which fields get other constraints than their struct tags
-CUST_FIELDS = {1: ["A"], 2: ["U"], 3: ["V"], 4: ["F", "E"], 5: ["V", "Z"]}
+CUST_FIELDS = {1: ["A"], 2: ["U"], 3: ["V"], 4: ["F", "E"], 5: ["V", "Z"], 6: ["Z"]}
 
 
 def random_test(uni, rng, idx, nops=40, nslots=8, p_reopen=0.06, p_batch=0.12, p_del=0.15, cfgs=None, pal=None, fields=None,
                 case_heavy=False, p_query=0.0, abandon=False, p_bad=0.0, max_chain=2, cust=None):
     g = RandGen(uni, rng, pal=pal, fields=fields, case_heavy=case_heavy, nslots=nslots)
     # three histories in eight run under a custom schema: "any subset of fields indexed / unique"
-    cust = rng.choice([0, 0, 0, 0, 0, 1, 2, 3, 4, 5]) if cust is None else cust
+    cust = rng.choice([0, 0, 0, 0, 0, 0, 1, 2, 3, 4, 5, 6, 6]) if cust is None else cust
     cf = CUST_FIELDS.get(cust, [])
     g.flds = g.flds + [f for f in cf if f != "V" and f not in g.flds]
     c = rng.choice(cfgs) if cfgs else (rng.random() < 0.5, rng.random() < 0.35)
@@ -431,6 +432,10 @@ def order_test(uni, rng, idx, nobj=8, nq=8, cfgs=None):
         h += 1
         q = g.chain(depth=rng.choice([1, 1, 2, 3]), last_indexed=idxf, conns=("and",)) if rng.random() < 0.8 else g.chain()
         ops.append({"op": "eval", "h": h, "q": q})
+        if rng.random() < 0.25:
+            # a refinement of the kept value, collected in order too; the kept value is collected right after
+            ops.append({"op": "derive", "h": 100 + h, "from": h, "q": [g.cmp(fields=idxf, conn="and")], "rev": rng.random() < 0.5})
+            ops.append({"op": "collect", "h": 100 + h, "rev": rng.random() < 0.4, "lim": rng.choice([-1, -1, 1, 2, nobj]), "what": "collect"})
         what = rng.choice(["one", "assignone", "assignunique", "assign", "expects", "expectszn", "collect", "collect", "collect", "collect"])
         lim = rng.choice([-1, -1, 0, 1, 2, 3, nobj - 1, nobj, nobj + 1, 1 << 30])
         op = {"op": "collect", "h": h, "rev": rng.random() < 0.4, "lim": -1 if what in ("one", "assignone", "assignunique") else lim, "what": what}
@@ -454,6 +459,10 @@ def snapshot_test(uni, rng, idx, nobj=6, cfgs=None):
         ops.append({"op": "eval", "h": h, "q": q})
         ops.append({"op": "eval", "h": h + 1, "q": q})
         ops.append({"op": "collect", "h": h, "lim": -1, "what": "collect"})
+        if rng.random() < 0.4:
+            # the kept value is refined into another one (And / Or / Operation): it stays what it was
+            ops.append({"op": "derive", "h": 100 + h, "from": h + 1, "q": [g.cmp(conn=rng.choice(["and", "or", "or", "||", "AND"]))], "rev": rng.random() < 0.5})
+            ops.append({"op": "collect", "h": 100 + h, "lim": -1, "what": "collect"})
         if rng.random() < 0.3:
             # empty the collection (one of three ways), refill it: identifiers of the old matches must not denote the new objects
             z = rng.random()
@@ -475,6 +484,9 @@ def snapshot_test(uni, rng, idx, nobj=6, cfgs=None):
                 ops.append(g.batch())
             else:
                 ops.append({"op": "delsearch", "q": g.chain(depth=1)})
+        if rng.random() < 0.3:
+            # refined after the writes: the new value mixes two states (not judged), the kept one is still the snapshot
+            ops.append({"op": "derive", "h": 200 + h, "from": h + 1, "q": [g.cmp(conn=rng.choice(["and", "or", "or"]))], "rev": rng.random() < 0.5})
         ops.append({"op": "collect", "h": h + 1, "lim": -1, "what": "collect"})
     return {"id": "snap%d" % idx, "cfg": make_cfg(c[0], c[1], rng.randrange(len(STORAGE))), "ops": ops, "fields": ["K", "S"] + g.flds}
 
